@@ -10,10 +10,11 @@ CONSTANTS NU, ND
 Graphs == UNION {{<<"und", A, 0>> : A \in Und(n)} : n \in 1..NU}
           \cup UNION {{<<"dir", A, 1>> : A \in Dir(n)} : n \in 2..ND}
 W4(A, unit) == [k \in 1..Len(A) |-> IF unit THEN 4 ELSE 2 + 3 * Wt(A)[k] + (k % 2)]
-\* link attribute (integer, symmetric for undirected graphs), defined on every pair
+\* link attribute (integer -3..3: negative and zero values occur; symmetric for undirected graphs),
+\* defined on every pair
 LA(A, dir) == [i \in 1..Len(A) |-> [j \in 1..Len(A) |->
-                 IF dir = 1 THEN 1 + ((3 * i + 5 * j + HashA(A)) % 7)
-                 ELSE 1 + ((i * j + i + j + HashA(A)) % 7)]]
+                 IF dir = 1 THEN ((3 * i + 5 * j + HashA(A)) % 7) - 3
+                 ELSE ((i * j + i + j + HashA(A)) % 7) - 3]]
 Cases == SetToSeq({[blk |-> g[1], n |-> Len(g[2]), directed |-> g[3], A |-> g[2],
                     w4 |-> W4(g[2], u = 1), hasla |-> l, la |-> LA(g[2], g[3])]
                    : g \in Graphs, u \in {0, 1}, l \in {0, 1}})
